@@ -140,7 +140,7 @@ func msgClass(m string) string {
 
 func TestC12(t *testing.T) {
 	c := pbt.New("C12", "fault_enumeration",
-		"a well-formed program is rendered with a random layout (so line numbers vary) and compiled through the built CLI: it must be accepted silently with files for all six targets. Then one fault of every class of DESIGN Appendix C (19 classes: duplicates, second root, unknown/illegal options, misplaced/duplicate length-of, undeclared references) is injected at a drawn applicable site (thorough: up to 3 sites per class) and the faulty text must be rejected: exit != 0, no output file, no crash, and a diagnostic whose line lies in the span of the offending declaration and that names the offending identifier or the class. Non-trivial = faulty case whose offending line is > 1 in a program with >= 3 declarations, or an accepted program using >= 3 distinct constructs; distinct = hash of text.",
+		"a well-formed program is rendered with a random layout (so line numbers vary) and compiled through the built CLI: it must be accepted silently with files for all six targets (a third of the programs once more with a random subset of the targets, or without the optional root packet for Go/Java/Rust). Then one fault of every class of DESIGN Appendix C (19 classes: duplicates, second root, unknown/illegal options, misplaced/duplicate length-of, undeclared references) is injected at a drawn applicable site (thorough: up to 3 sites per class) and the faulty text must be rejected: exit != 0, no output file, no crash, and a diagnostic whose line lies in the span of the offending declaration and that names the offending identifier or the class. Non-trivial = faulty case whose offending line is > 1 in a program with >= 3 declarations, or an accepted program using >= 3 distinct constructs; distinct = hash of text.",
 		"'names the offence' accepts the offending identifier/literal or a class keyword (Appendix C); exact wording is not pinned")
 	if p := pbt.ReplayPath(); p != "" {
 		c.Direct(t, func() { replayHistory(p, evalC12); k := loadCase[c12Case](t, p); c.Eval(); c.Report(pbt.DirectTB(t), k, evalC12(k)) })
